@@ -1,8 +1,9 @@
 (* C18 — Map and Set are insertion-ordered SameValueZero dictionaries, even while mutated.
    ONLY theorem statements; each is closed by [exact] of a lemma of C18/Proofs.v. *)
-From Coq Require Import List Arith NArith Bool.
+From Coq Require Import List Arith ZArith NArith Bool.
 Import ListNotations.
-From Verif.C18 Require Import Model Proofs.
+From Verif.C18 Require Import Model Proofs HashModel.
+From Verif.C18 Require Hash.
 
 Section C18.
 Context {K V : Type} (same : K -> K -> bool) (norm : K -> K) (H : K -> N).
@@ -73,6 +74,127 @@ Proof. exact (Proofs.sdata_keys_unique same norm norm_idem). Qed.
 
 End C18.
 
+(* ------------------------------------------------------------------------------------------------------
+   6. The hypotheses of 1 hold of goja's REAL key functions (coq/C18/HashModel.v: Value.SameAs per
+      constructor pair, the negative-zero normalisation of map.go, the hash(hasher) methods; numbers are C05's
+      valueInt/valueFloat, strings C06's three representations).  maphash, the four package-level hash words and
+      the addresses of Symbols and Objects are arbitrary (section variables): nothing is assumed of them. *)
+Section C18_JS.
+Variables hashTrue hashFalse hashNull hashUndef : N.
+Variable mh : list N -> N.
+Variables ptr_sym ptr_obj : N -> N.
+Local Notation goja_hash := (goja_hash hashTrue hashFalse hashNull hashUndef mh ptr_sym ptr_obj).
+Local Notation wf_hash := (Hash.wf_hash hashTrue hashFalse hashNull hashUndef mh ptr_sym ptr_obj).
+
+Theorem hash_respects_svz : forall a b, key_wf a = true -> key_wf b = true ->
+  goja_same (goja_norm a) (goja_norm b) = true -> goja_hash (goja_norm a) = goja_hash (goja_norm b).
+Proof. exact (Hash.hash_respects_svz hashTrue hashFalse hashNull hashUndef mh ptr_sym ptr_obj). Qed.
+
+(* without the normalisation too: SameAs alone forces equal hashes on well-formed keys *)
+Theorem hash_respects_same : forall a b, key_wf a = true -> key_wf b = true ->
+  goja_same a b = true -> goja_hash a = goja_hash b.
+Proof. exact (Hash.hash_respects_same hashTrue hashFalse hashNull hashUndef mh ptr_sym ptr_obj). Qed.
+
+(* SameValueZero-equal keys hash alike even before normalisation (number case: C05 hash_respects_svz_num) *)
+Theorem hash_respects_svz_raw : forall a b, key_wf a = true -> key_wf b = true ->
+  goja_same (goja_norm a) (goja_norm b) = true -> goja_hash a = goja_hash b.
+Proof. exact (Hash.hash_respects_svz_raw hashTrue hashFalse hashNull hashUndef mh ptr_sym ptr_obj). Qed.
+
+Example hash_respects_svz_nonvacuous :
+  let a := VStr (M6.SImp [195; 169]%N false) in let b := VStr (M6.SUni [233]%N) in   (* "é" imported / unicode *)
+  let c := VNum (M5.NFlt (F64.of_bits 9223372036854775808)) in let d := VNum (M5.NInt 0) in   (* -0 / +0 *)
+  key_wf a = true /\ key_wf b = true /\ goja_same (goja_norm a) (goja_norm b) = true /\ a <> b /\
+  key_wf c = true /\ key_wf d = true /\ goja_same (goja_norm c) (goja_norm d) = true /\ goja_same c d = false.
+Proof. vm_compute. repeat split; discriminate. Qed.
+
+(* why key_wf is there: (a) the valueFloat 1.0 is SameAs the valueInt 1 and hashes to its bit pattern - this is
+   how C05's canonicality defects were visible through Map and Set *)
+Theorem hash_respects_refuted_noncanonical :
+  let a := VNum (M5.NFlt M5.fone) in let b := VNum (M5.NInt 1) in
+  key_wf a = false /\ key_wf b = true /\
+  goja_same (goja_norm a) (goja_norm b) = true /\
+  goja_hash (goja_norm a) = 4607182418800017408%N /\ goja_hash (goja_norm b) = 1%N /\
+  goja_hash (goja_norm a) <> goja_hash (goja_norm b).
+Proof. exact (Hash.hash_respects_refuted_noncanonical hashTrue hashFalse hashNull hashUndef mh ptr_sym ptr_obj). Qed.
+
+(* (b) STILL TRUE OF THE CODE (open finding C18-H1): two wrappers of one Go value are SameAs, their hashes are
+   their own addresses *)
+Theorem hash_respects_refuted_hostwrapper :
+  (forall i j, ptr_obj i = ptr_obj j -> i = j) ->
+  let a := VObj 1 (Some 7%N) in let b := VObj 2 (Some 7%N) in
+  goja_same (goja_norm a) (goja_norm b) = true /\ goja_hash (goja_norm a) <> goja_hash (goja_norm b).
+Proof. exact (Hash.hash_respects_refuted_hostwrapper hashTrue hashFalse hashNull hashUndef mh ptr_sym ptr_obj). Qed.
+
+(* 7. what goja compares with IS ECMAScript SameValueZero on the values' denotations (numbers: mathematical
+      value, C05 sameValueZero_sound; strings: UTF-16 units, C06 eq_hash_key_agree; the rest: identity) *)
+Theorem goja_same_is_svz : forall a b, key_wf a = true -> key_wf b = true ->
+  goja_same (goja_norm a) (goja_norm b) = svz_spec a b.
+Proof. exact Hash.goja_same_is_svz. Qed.
+
+Theorem goja_norm_wf : forall a, key_wf a = true -> key_wf (goja_norm a) = true.
+Proof. exact Hash.norm_wf. Qed.
+Theorem goja_norm_idem : forall a, goja_norm (goja_norm a) = goja_norm a.
+Proof. exact Hash.norm_idem. Qed.
+
+(* 8. Theorem 1 at the JS values: keys are the well-formed values (a subset type; same/norm/hash are goja's,
+      applied to the underlying value).  For EVERY history of Map/Set operations over well-formed JS values,
+      orderedMap with goja's real hash and SameAs returns what the SameValueZero [[MapData]] list returns. *)
+Theorem om_refines_js : forall (V : Type) (ops : list (@op Hash.wfkey V)),
+  snd (run (istep Hash.wf_same Hash.wf_norm wf_hash) iinit ops) =
+  snd (run (sstep Hash.wf_same Hash.wf_norm) sinit ops).
+Proof. exact (Hash.om_refines_js hashTrue hashFalse hashNull hashUndef mh ptr_sym ptr_obj). Qed.
+
+(* the three functions are literally goja's on the underlying value *)
+Theorem wfkey_functions : forall a b : Hash.wfkey,
+  Hash.wf_same a b = goja_same (proj1_sig a) (proj1_sig b) /\
+  proj1_sig (Hash.wf_norm a) = goja_norm (proj1_sig a) /\
+  wf_hash a = goja_hash (proj1_sig a) /\
+  svz Hash.wf_same Hash.wf_norm a b = svz_spec (proj1_sig a) (proj1_sig b).
+Proof. exact (Hash.wfkey_functions hashTrue hashFalse hashNull hashUndef mh ptr_sym ptr_obj). Qed.
+
+(* SameValueZero on well-formed keys is an equivalence: the premises of 5 hold at the JS values *)
+Theorem wf_same_equiv :
+  (forall a : Hash.wfkey, Hash.wf_same a a = true) /\
+  (forall a b : Hash.wfkey, Hash.wf_same a b = true -> Hash.wf_same b a = true) /\
+  (forall a b c : Hash.wfkey, Hash.wf_same a b = true -> Hash.wf_same b c = true -> Hash.wf_same a c = true).
+Proof. exact Hash.wf_same_equiv. Qed.
+
+(* 9. iteration order: after ANY history, a fresh iterator drained by k calls of next() yields exactly the
+      entries present in [[MapData]], in position (= insertion, by 4) order, then "done" for ever. *)
+Theorem map_iteration_order_js : forall (V : Type) (ops : list (@op Hash.wfkey V)) k,
+  let d := fst (fst (run (sstep Hash.wf_same Hash.wf_norm) sinit ops)) in
+  let n := length (snd (fst (run (sstep Hash.wf_same Hash.wf_norm) sinit ops))) in
+  skipn (length ops) (snd (run (istep Hash.wf_same Hash.wf_norm wf_hash) iinit (ops ++ ONewIter :: repeat (ONext n) k))) =
+  RNat n :: map (fun kv => REntry (Some kv)) (firstn k (Hash.live d)) ++ repeat (REntry None) (k - length (Hash.live d)).
+Proof. exact (Hash.map_iteration_order_js hashTrue hashFalse hashNull hashUndef mh ptr_sym ptr_obj). Qed.
+
+(* 10. symtab_same_structure: baseObject.symValues is newOrderedMap(nil) keyed by Symbols: same = pointer
+       equality, norm = identity, hash = the Symbol's address (the nil hasher is never touched).  It refines the
+       same [[MapData]]-style list, hence OrdinaryOwnPropertyKeys' symbol part (baseObject.symbols(all): a fresh
+       iterator drained) = the live symbol properties in insertion order. *)
+Theorem symtab_same_structure : forall (V : Type) (ops : list (@op N V)),
+  snd (run (istep sym_same sym_norm ptr_sym) iinit ops) = snd (run (sstep sym_same sym_norm) sinit ops).
+Proof. intros V. exact (Hash.symtab_same_structure ptr_sym). Qed.
+
+Theorem symtab_ownkeys_order : forall (V : Type) (ops : list (@op N V)) k,
+  let d := fst (fst (run (sstep sym_same sym_norm) sinit ops)) in
+  let n := length (snd (fst (run (sstep sym_same sym_norm) sinit ops))) in
+  skipn (length ops) (snd (run (istep sym_same sym_norm ptr_sym) iinit (ops ++ ONewIter :: repeat (ONext n) k))) =
+  RNat n :: map (fun kv => REntry (Some kv)) (firstn k (Hash.live d)) ++ repeat (REntry None) (k - length (Hash.live d)).
+Proof. intros V. exact (Hash.symtab_ownkeys_order ptr_sym). Qed.
+
+Theorem symtab_svz_is_identity : forall a b, svz sym_same sym_norm a b = true <-> a = b.
+Proof. exact Hash.symtab_svz_is_identity. Qed.
+
+(* non-vacuity of 9/10: set s5, s7, s6; delete s7; set s5 again: keys come out as s5, s6 *)
+Example symtab_ownkeys_nonvacuous :
+  let ops := [OSet 5%N 1; OSet 7%N 2; OSet 6%N 3; ODel 7%N; OSet 5%N 4] in
+  skipn 5 (snd (run (istep sym_same sym_norm (fun i => N.modulo i 2)) iinit (ops ++ ONewIter :: repeat (ONext 0) 3))) =
+  [RNat 0; REntry (Some (5%N, 4)); REntry (Some (6%N, 3)); REntry None].
+Proof. vm_compute. reflexivity. Qed.
+
+End C18_JS.
+
 Print Assumptions om_refines.
 Print Assumptions om_size_live.
 Print Assumptions siter_next_some.
@@ -80,3 +202,15 @@ Print Assumptions siter_next_none.
 Print Assumptions siter_done_stays.
 Print Assumptions sdata_positions_stable.
 Print Assumptions sdata_keys_unique.
+Print Assumptions hash_respects_svz.
+Print Assumptions hash_respects_same.
+Print Assumptions hash_respects_svz_raw.
+Print Assumptions hash_respects_refuted_noncanonical.
+Print Assumptions hash_respects_refuted_hostwrapper.
+Print Assumptions goja_same_is_svz.
+Print Assumptions om_refines_js.
+Print Assumptions wfkey_functions.
+Print Assumptions wf_same_equiv.
+Print Assumptions map_iteration_order_js.
+Print Assumptions symtab_same_structure.
+Print Assumptions symtab_ownkeys_order.
